@@ -95,7 +95,7 @@ def check_table(job):
                 if str(note).startswith('ERROR:') or pd.isnull(t.loc[rid, 'Number of Events']):
                     out['labels'].append(('healthy-row-without-count', i))
                 # the output row equals the row of the single-row run (notes and every statistics column)
-                ts = W.samples_table([rows[i]], variant=variant + i)
+                ts = W.samples_table([rows[i]], variant=variant + i, style=(variant % 4 == 3))
                 rs = {'S1': single_run(rows[i], variant + i, bf)}
                 if not isinstance(rs['S1'], Exception):
                     with warnings.catch_warnings():
